@@ -331,6 +331,9 @@ func checkC01(c *Ctx) {
 	}
 	// ---- (c) enum blocks, over-long error lists, odd files ----
 	fixed := map[string]string{
+		// a plain global defined twice (inside a function and at file level), read through _G at several depths
+		"global_chain":   "function setup()\n  config = {}\n  config.name = 0\nend\nconfig = { name = 1, sub = { deep = 2 } }\nprint(_G.config.name, _G.config.sub.deep, _G.config)\n_G.config.name = 3\nprint(config.name)\n",
+		"global_chain2":  "_G.state = {}\nfunction reset()\n  state = { n = 1 }\nend\nstate = { n = 2 }\nstate = { n = 3 }\nprint(_G.state.n, state.n, _G._G.state.n)\n",
 		"enum_paren":     "---@enum start\nlocal E = {\n  A = (1),\n  B = ((2)),\n  C = (A),\n  D = (E.A),\n}\n---@enum end\nprint(E.A, E.B)\n",
 		"enum_nested":    "---@enum start\nlocal E = { A = { B = (1) }, C = (function() return 1 end)(), D = #(\"x\") }\n---@enum end\nprint(E)\n",
 		"enum_unclosed":  "---@enum start\nlocal E = { A = (1)\nprint(E)\n",
